@@ -1,4 +1,5 @@
 """regenerate coq/Gen/*.v from the repository's current working tree"""
+import importlib
 import os
 import sys
 import traceback
@@ -7,35 +8,46 @@ from .core import TransError, write_if_changed
 
 REPO = os.environ.get("VERIF_REPO", "/repo")
 
+# anchor -> (generated file, module, function).  One line per anchor; modules are imported lazily so
+# that a broken module only breaks its own anchor.
+REGISTRY = {
+    "T1": ("T1.v", "t1_validators", "gen"),
+    "T2": ("T2.v", "t2_io", "gen"),
+    "T3": ("T3.v", "t3_decomposer", "gen"),
+    "T3b": ("T3b.v", "t3_decomposer", "gen_sign_xr"),
+    "T4": ("T4.v", "t4_scaler", "gen"),
+    "T5eof": ("T5eof.v", "t5_eof", "gen"),
+    "T5rot": ("T5rot.v", "t5_rot", "gen"),
+    "T5pop": ("T5pop.v", "t5_pop", "gen"),
+    "T5whiten": ("T5whiten.v", "t5_whiten", "gen"),
+    "T6san": ("T6san.v", "t6_sanitizer", "gen"),
+    "T7ser": ("T7ser.v", "t7_serial", "gen"),
+    "T7unseen": ("T7unseen.v", "t7_unseen", "gen"),
+    "T8": ("T8.v", "t8_kwargs", "gen"),
+}
+
 
 def anchors():
-    from . import t3_decomposer, t8_kwargs, t5_eof, t4_scaler, t5_rot
-    return {"T3": ("T3.v", t3_decomposer.gen), "T3b": ("T3b.v", t3_decomposer.gen_sign_xr),
-            "T8": ("T8.v", t8_kwargs.gen),
-            "T5eof": ("T5eof.v", t5_eof.gen),
-            "T4": ("T4.v", t4_scaler.gen),
-            "T1": ("T1.v", __import__(__package__ + ".t1_validators", fromlist=["gen"]).gen),
-            "T5pop": ("T5pop.v", __import__(__package__ + ".t5_pop", fromlist=["gen"]).gen),
-            "T5whiten": ("T5whiten.v", __import__(__package__ + ".t5_whiten", fromlist=["gen"]).gen),
-            "T6san": ("T6san.v", __import__(__package__ + ".t6_sanitizer", fromlist=["gen"]).gen),
-            "T2": ("T2.v", __import__(__package__ + ".t2_io", fromlist=["gen"]).gen), "T7ser": ("T7ser.v", __import__(__package__ + ".t7_serial", fromlist=["gen"]).gen),
-            "T5rot": ("T5rot.v", t5_rot.gen)}
+    return REGISTRY
 
 
-def regen_all(outdir, repo=None):
+def regen_all(outdir, repo=None, only=None):
     repo = repo or REPO
     status = {}
     os.makedirs(outdir, exist_ok=True)
-    for name, (fn, gen) in anchors().items():
+    for name, (fn, modname, func) in REGISTRY.items():
+        if only is not None and name not in only:
+            continue
         path = os.path.join(outdir, fn)
         try:
-            txt = gen(repo)
+            mod = importlib.import_module(__package__ + "." + modname)
+            txt = getattr(mod, func)(repo)
             write_if_changed(path, txt)
             status[name] = "ok"
         except TransError as e:
             status[name] = "anchor no longer matches: %s" % (e,)
-        except (SyntaxError, OSError) as e:
-            status[name] = "source unreadable: %r" % (e,)
+        except (SyntaxError, OSError, ImportError, AttributeError) as e:
+            status[name] = "translator module or source unreadable: %r" % (e,)
         except Exception as e:  # fail closed
             status[name] = "translator error: %r" % (e,)
             traceback.print_exc()
